@@ -4,8 +4,9 @@
    hence andb/orb lemmas are used with qualified names.) *)
 From RelationAlgebra Require Import lattice monoid kleene kat_tac lang.
 From Coq Require Import NArith List Lia.
-From Sophia.C09 Require Import Model Eval AtomsProofs.
+From Sophia.C09 Require Import Regex Eval AtomsProofs.
 Import ListNotations.
+Close Scope N_scope.
 
 (* one-letter words whose letter satisfies P *)
 Definition sym (P : N -> bool) : lang' N := fun w => exists c, w = [c] /\ P c = true.
@@ -34,10 +35,10 @@ Section Sem.
   Qed.
 
   Lemma mk_alt_sem (r s : rex A) : langg (mk_alt r s) ≡ langg r + langg s.
-  Proof. unfold langg. destruct r, s; simpl; ka. Qed.
+  Proof. apply eval_mk_alt. Qed.
 
   Lemma mk_cat_sem (r s : rex A) : langg (mk_cat r s) ≡ langg r ⋅ langg s.
-  Proof. unfold langg. destruct r, s; simpl; ka. Qed.
+  Proof. apply eval_mk_cat. Qed.
 
   Global Instance lang_deriv_weq c : Proper (weq ==> weq) (@lang_deriv N c).
   Proof. intros x y H w. apply H. Qed.
@@ -46,9 +47,9 @@ Section Sem.
   Proof.
     intro w. unfold lang_deriv, sym. destruct (P c) eqn:E; simpl.
     - split.
-      + intros [d [H _]]. injection H. intros <- _. reflexivity.
-      + intros <-. exists c. auto.
-    - split; [|intros []]. intros [d [H H']]. injection H. intros _ ->. congruence.
+      + intros [d [H _]]. inversion H. reflexivity.
+      + intros H. change ([] = w) in H. subst w. exists c. auto.
+    - split; [|intros []]. intros [d [H H']]. inversion H. subst. congruence.
   Qed.
 
   Lemma deriv_sem c (r : rex A) : langg (deriv (test c) r) ≡ lang_deriv c (langg r).
@@ -90,7 +91,10 @@ Proof. apply matchg_spec. Qed.
 
 (* ---------- abstraction to atoms is exact on aligned classes ---------- *)
 Lemma sym_ext P Q : (forall c, P c = Q c) -> sym P ≡ sym Q.
-Proof. intros H w. unfold sym. split; intros [c [H1 H2]]; exists c; rewrite ?H in *; auto. rewrite H. auto. Qed.
+Proof.
+  intros H w. unfold sym.
+  split; intros [c [H1 H2]]; exists c; (split; [exact H1|]); [rewrite <- H | rewrite H]; exact H2.
+Qed.
 
 Lemma sym_orb P Q : sym (fun c => orb (P c) (Q c)) ≡ sym P + sym Q.
 Proof.
@@ -116,17 +120,19 @@ Qed.
 
 Theorem abstract_sound (r : rex cclass) : all_aligned r = true -> langc r ≡ langa (abstract r).
 Proof.
-  induction r as [| |rs|r IHr s IHs|r IHr s IHs|r IHr]; simpl; intro H.
+  induction r as [| |rs|r IHr s IHs|r IHr s IHs|r IHr]; intro H.
   - reflexivity.
   - reflexivity.
-  - rewrite sum_atoms_sem. apply sym_ext. intro c. apply aligned_spec. exact H.
-  - apply Bool.andb_true_iff in H. destruct H as [H1 H2].
+  - change (sym (fun c => inr c rs) ≡ langa (sum_atoms (atoms_in rs))).
+    rewrite sum_atoms_sem. apply sym_ext. intro c. apply aligned_spec. exact H.
+  - cbn [all_aligned] in H. apply Bool.andb_true_iff in H. destruct H as [H1 H2].
     change (langc r + langc s ≡ langa (abstract r) + langa (abstract s)).
     rewrite (IHr H1), (IHs H2). reflexivity.
-  - apply Bool.andb_true_iff in H. destruct H as [H1 H2].
+  - cbn [all_aligned] in H. apply Bool.andb_true_iff in H. destruct H as [H1 H2].
     change (langc r ⋅ langc s ≡ langa (abstract r) ⋅ langa (abstract s)).
     rewrite (IHr H1), (IHs H2). reflexivity.
-  - change ((langc r)^* ≡ (langa (abstract r))^*). rewrite (IHr H). reflexivity.
+  - cbn [all_aligned] in H.
+    change ((langc r)^* ≡ (langa (abstract r))^*). rewrite (IHr H). reflexivity.
 Qed.
 
 (* From an identity valid in every Kleene algebra (what `ka` proves) to the two matchers. *)
